@@ -56,6 +56,7 @@ def build_pair(c):
     if c["kind"] == "gmrf":
         n, pd = c["n"], c["pd"]
         mean = A(c["mean"]) if c["mean_kind"] == "vector" else (float(c["mean"][0]) if c["mean_kind"] == "scalar" else np.zeros(n if pd == 1 else n * n))
+        c20.decoy_other_layout(pd, n, c["bc"], c["order"])
         x = D.GMRF(mean, prec=lambda s: s, bc_type=c["bc"], order=c["order"], geometry=c20.make_geom(pd, n), name="x")
         xv = A(c["x"])
         if c["route"] == "joint":
